@@ -2,6 +2,8 @@
 
 stdin : {"cases": [ {"verts": [[x,y,z],..], "faces": [[a,b,c],..], "mode": "circle"|"square"|"custom",
                      "cotan": bool, "cycle": [v,...] (generator's own border cycle, custom mode only),
+                     "call": {"mode","cotan","verbose": "pos"|"kw"|"omit", "corners": "kw"|"omit", "cb","uv_attr": "omit"|"none"}
+                             (optional: how the constructor's optional arguments are written, see call_form),
                      "poly": [[x,y],..] (custom mode: target polygon, poly[k] is meant for cycle[k]),
                      "seq": [{"mode","cotan","pre": null|"cotangent"|"angles"}, ..] (optional: run these embeddings one
                              after the other on ONE mesh object; obs = {"status":"seq","steps":[obs,..]}) }, ...]}
@@ -32,6 +34,42 @@ def build(case):
     return M.mesh.SurfaceMesh(d)
 
 
+def call_form(form, mode, cotan, corners):
+    """How the constructor's optional arguments are written.  Signature: TutteEmbedding(mesh, boundary_mode="circle",
+    use_cotan=False, verbose=False, **kwargs[save_on_corners=True, custom_boundary=None, uv_attr=None]).
+    form[k] in: "pos" (positional), "kw" (keyword), "omit" (left out - only honoured when the wanted value IS the
+    default), "none" (custom_boundary / uv_attr passed explicitly with their default None)."""
+    args, kw = [], {}
+    fm, fc, fv = form.get("mode", "kw"), form.get("cotan", "kw"), form.get("verbose", "kw")
+    if fm == "omit" and mode != "circle":
+        fm = "kw"
+    if fc == "omit" and cotan:
+        fc = "kw"
+    if fc == "pos" and fm != "pos":
+        fc = "kw"
+    if fv == "pos" and fc != "pos":
+        fv = "kw"
+    if fm == "pos":
+        args.append(mode)
+    elif fm == "kw":
+        kw["boundary_mode"] = mode
+    if fc == "pos":
+        args.append(cotan)
+    elif fc == "kw":
+        kw["use_cotan"] = cotan
+    if fv == "pos":
+        args.append(False)
+    elif fv == "kw":
+        kw["verbose"] = False
+    if not (form.get("corners", "kw") == "omit" and corners):
+        kw["save_on_corners"] = corners
+    if form.get("cb") == "none":
+        kw["custom_boundary"] = None
+    if form.get("uv_attr") == "none":
+        kw["uv_attr"] = None
+    return args, kw
+
+
 def one_run(case, corners, mesh=None):
     import numpy as np
     from mouette.processing.parametrization import TutteEmbedding
@@ -50,9 +88,13 @@ def one_run(case, corners, mesh=None):
         mode = "circle"
     else:
         mode = case["mode"]
-    t = TutteEmbedding(mesh, boundary_mode=mode, use_cotan=bool(case["cotan"]), verbose=False,
-                       save_on_corners=corners, **kw)
+    args, kw2 = call_form(case.get("call") or {}, mode, bool(case["cotan"]), corners)
+    kw2.update(kw)
+    out["call"] = "TutteEmbedding(mesh%s%s)" % ("".join(", %r" % a for a in args),
+                                                 "".join(", %s=%s" % (k, "<array>" if k == "custom_boundary" and v is not None else repr(v))
+                                                         for k, v in kw2.items()))
     try:
+        t = TutteEmbedding(mesh, *args, **kw2)
         t.run()
     except Exception as ex:  # the gate raises a bare Exception
         msg = str(ex)
@@ -71,6 +113,7 @@ def one_run(case, corners, mesh=None):
     if case["cotan"]:
         cot = mesh.face_corners.get_attribute("cotan")
         out["cot"] = [float(cot[c]) for c in range(len(mesh.face_corners))]
+    out["verts_after"] = [[float(mesh.vertices[v][k]) for k in range(3)] for v in range(len(mesh.vertices))]
     out["corner_vertex"] = [int(v) for v in mesh.face_corners]
     out["faces_seen"] = [[int(a) for a in f] for f in mesh.faces]
     return out
@@ -86,7 +129,7 @@ def run_sequence(case):
         return {"status": "seq", "steps": [{"status": "error:driver %s: %s" % (type(ex).__name__, str(ex)[:300])}]}
     steps = []
     for st in case["seq"]:
-        view = dict(case, mode=st["mode"], cotan=st["cotan"])
+        view = dict(case, mode=st["mode"], cotan=st["cotan"], call=st.get("call"))
         try:
             if st.get("pre") == "cotangent":
                 M.attributes.cotangent(mesh)
@@ -115,7 +158,8 @@ def run_case(case, mesh=None):
     if a["free"] != b["free"] or a["bnd"] != b["bnd"]:
         return {"status": "error:storages partition differently", "nv": a["nv"], "ne": a["ne"], "nf": a["nf"]}
     o.update(free=a["free"], bnd=a["bnd"], uv_vertex=a["uv"], uv_corner=b["uv"], flat_vertex=a["flat"],
-             flat_corner=b["flat"], corner_vertex=a["corner_vertex"], faces_seen=a["faces_seen"])
+             flat_corner=b["flat"], corner_vertex=a["corner_vertex"], faces_seen=a["faces_seen"],
+             verts_after=b["verts_after"], call=a.get("call"))
     if "custom_rows" in a:
         o["custom_rows"] = a["custom_rows"]
     if "cot" in a:
